@@ -657,7 +657,7 @@ func (c fbcb) ExecFallback(prep any, err error) (any, error) { return c.h.fallba
 
 type retrym struct{ n *NodeSpec }
 
-func (c retrym) GetMaxRetries() int      { return c.n.config().Retries }
+func (c retrym) GetMaxRetries() int     { return c.n.config().Retries }
 func (c retrym) GetWait() time.Duration { return time.Duration(c.n.config().WaitMs) * time.Millisecond }
 
 // BaseNode one level deeper so that the harness methods win the promotion.
